@@ -39,7 +39,7 @@ TRUSTED_BASE = [
     "read_neighbors output (neighbour / weight tables, Nmax truncation) is INPUT DATA of the model (C05 covers the reader); the "
     "harness writes real neighbour/weight files and the real reader parses them",
     "window length W=int(period/interval) and the middle-frame ids come from utils.coarse_graining.time_average (C16); C10 "
-    "judges periods ≥1e-6 away from a multiple of the interval and compares ids only for even W",
+    "judges periods that are exact multiples of the frame interval or ≥1e-6 away from one, and compares ids only for even W",
     "np.histogram with range=(0,maxbin*rdelta): half-open uniform bins, last bin closed (contract; pair distances ≥1e-6 from an edge)",
     "float64 ≈ ℝ: validated by the correspondence under margin guards (rint ties, bin edges, int() truncations, branch cut of "
     "np.angle), tolerance 1e-9 (1e-7 for the separate modulus/phase average: Float atan2/cos/sin in the driver), not proved",
@@ -245,7 +245,7 @@ def add_common(rng, c):
     if T >= 2:
         W = rng.randint(1, T - 1)
         dstep = c["steps"][1] - c["steps"][0]
-        c["period"] = fdec((W + F(rng.choice(["0.5", "0.25", "0.75", "0.1"]))) * dstep * F(c["dt"]))
+        c["period"] = fdec((W + F(rng.choice(["0.5", "0.25", "0.75", "0.1", "0", "0"]))) * dstep * F(c["dt"]))
     c["rdelta"] = rng.choice(["0.13", "0.31", "0.17"] if c["lat_l"] else ["0.07", "0.13", "0.2", "0.31", "0.053"])
     return c
 
@@ -467,6 +467,8 @@ def spec_window(c):
     dstep = c["steps"][1] - c["steps"][0]
     q = F(c["period"]) / (dstep * F(c["dt"]))
     W = math.floor(q)
+    if q == W:
+        return W, F(1)       # exact multiple of the frame interval: decided
     return W, min(q - W, W + 1 - q)
 
 
@@ -664,6 +666,9 @@ def run_cases(run, cases, count=True):
                 dis.append((c, "lthorder", f"frame {extra} particle {k}: real {real['phi'][extra][k]!r} vs model {model[k]!r}"))
         elif what == "tavg":
             margin = fr(toks[0]); cut = bits2float(toks[1]); W = int(toks[2])
+            qx = F(c["period"]) / ((c["steps"][1] - c["steps"][0]) * F(c["dt"]))
+            if qx == W and 1 <= W < c["T"]:
+                margin = F(1)      # a period that IS a whole number of frame intervals: the window is exactly W frames (judged, as in C16)
             if margin < MARGIN or (extra == 0 and cut < 1e-6):
                 skipped += 1
                 run.hist("skipped_inside_margin_by_op", f"tavg{extra}:{c['kind']}")
